@@ -21,9 +21,29 @@ R1  canonical-form comparison: ISA temperature / pressure / altitude, air densit
     remains must equal the cited formula of that region.  A condition that the value does not decide is UNDECIDED,
     never guessed.  A rational code form against a reference with exp / log / non-integer powers is a definite
     difference.
-    The HC/CO ambient factor is read off the value returned: the returned expression times every unguarded
-    whole-array scaling (`A *= f; return A`, `return A * f`, one expression).  The atmospheric state's attributes
-    are followed to the values stored in them (locals, array conversions, earlier attributes).
+    *What is compared is located by value flow from the result, never by the name of a local*: the returned value (or
+    the field of the returned record) is followed back through its definitions - locals through their unique reaching
+    definition, tuple unpacking component-wise, calls of the module's own plain functions replaced by what they return
+    (parameters bound to the arguments), module-level and imported constants folded, parameters that are optional
+    knobs (numeric default, not a symbol of the cited equation) at their default.
+    BFFM2 NOx: the NOx field of the result is one product; its factors that read only Tamb / Pamb are the ambient
+    correction, compared as a whole with eqs. (44)-(45) expanded (theta, delta, P_psia, beta, Pv, omega, H); a
+    difference is pinned to the innermost cited sub-expression it lies in (opaque atoms - exp, log10, non-integer powers
+    - are identified by the *value* of their arguments and descended into).  The remaining factors are the sea-level
+    index 10 ** (log10(flow) * slope + intercept) with slope / intercept the two results of np.polyfit.  Every positive
+    fuel flow (calibration and evaluation) reaches its logarithm unchanged, only non-positive flows are replaced:
+    decided element-wise by running the function's own statements for one element of each array argument (masked
+    stores, np.where, np.clip, np.maximum on that element).
+    HC/CO: everything that happens to the returned array after it is filled is classified by value: whole-array
+    scalings (`A *= f`, `A = A * f`, `return A * f`, helper) multiply up to the ambient factor theta^3.3 / delta^1.02;
+    the one *correction of values already in the array* under a mask (`A[M] = g(A[M])`, `A[M] *= f`, `A *= np.where(M, f,
+    1)`, `A = np.where(M, g(A), A)`) is the ACRP low-thrust rule: new value ≡ xEI·(1 − 52·(ff − ff_idle)), M ≡ ff < ff_idle
+    (<=, flipped and np.less spellings are the same set of changed values), no plain fill of the array after it
+    (`A[isnan(A)] = 0` commutes with every scaling).  No update that reads the idle flow at all: the rule is missing.
+    SOx: the three fields of the record that is built and returned, by value.
+    The atmospheric state's attributes are followed to the values stored in them (locals, array conversions, earlier
+    attributes).  A piecewise ISA formula whose structure differs from its region's equation but equals the other
+    region's equation is reported as that (branches crossed), not left undecided.
     *Element-wise routines are run for single points* (ScalarRun: exact rational arithmetic on the function's own
     statements; np.where / np.select / np.interp / interp1d / digitize on scalars; tables in the function or at
     module level): FOA3 volatile PM at thrust settings below, at, between and above the table entries (δ held at the
@@ -106,7 +126,9 @@ def param_defaults(fn, consts):
     return out
 
 
-def _cmp(ctx, rule, fi, what, code_expr, ref, consts, rename=None, stop=(), refdefs=None, refconsts=None, line=None):
+def _cmp(ctx, rule, fi, what, code_expr, ref, consts, rename=None, stop=(), refdefs=None, refconsts=None, line=None, alts=None):
+    """alts: {label: formula} of the *other* pieces of a piecewise definition; a code form whose structure differs from
+    `ref` but which equals one of them is that piece's formula in the wrong place - a definite difference"""
     try:
         want = ref_normal_form(ref, refconsts if refconsts is not None else {}, refdefs)
         # the cited method is what the function computes when its optional knobs are left alone: a parameter that is
@@ -124,6 +146,20 @@ def _cmp(ctx, rule, fi, what, code_expr, ref, consts, rename=None, stop=(), refd
     if v == 'undecided' and not heads(code) and heads(want):
         # a rational function of the symbols is never a function with non-integer powers / exp / log of them
         v, why = 'different', f'the code has none of the {heads(want)} terms of the reference: code = {str(code)[:120]}'
+    if v == 'undecided':
+        # pinned further down inside the opaque sub-expressions (and: the same formula but for the base of a logarithm)
+        from ..conform import explain_difference
+        d = explain_difference(code, want)
+        if d is not None and d[2]:
+            v, why = 'different', d[1]
+    if v == 'undecided':
+        for label, other in (alts or {}).items():
+            try:
+                if compare2(code, ref_normal_form(other, refconsts if refconsts is not None else {}, refdefs))[0] == 'equal':
+                    v, why = 'different', f'this is the formula of the {label} (`{other[:70]}`)'
+                    break
+            except AlgebraError:
+                pass
     if v == 'undecided':
         ctx.undecided(rule, fi, what, why)
     ctx.ob(rule, fi, f'{what} ≡ {ref[:70]}', v == 'equal',
@@ -150,6 +186,9 @@ def _cp(n):
     return copy.deepcopy(n, {id(p): None} if p is not None else {})
 
 
+_MODULE_EXPR_MEMO: dict = {}     # id(module tree) -> (tree kept alive, {name: module-level arithmetic definition or None})
+
+
 class ValueCase:
     """A function as it runs when a discriminating variable `var` (a parameter that selects one of several
     alternatives: an engine type, an optional argument that is None or given) has the value `val`; with `var=None`
@@ -173,9 +212,11 @@ class ValueCase:
 
     OTHER = '\x00any-other-value'
 
-    def __init__(self, fn, var=None, val=None, module_tree=None, opener=None, _depth=0, numbers=None):
+    def __init__(self, fn, var=None, val=None, module_tree=None, opener=None, _depth=0, numbers=None, components=False):
         from ..cfg import CFG
         self.fn, self.var, self.val = fn, var, val
+        # components: `a, b = f(x)` resolves a to `f(x)[0]` (the value, free of the local's name) instead of staying `a`
+        self.components = components
         # numbers: name -> value of the module's numeric constants; with a numeric `val` a condition on `var` that is
         # arithmetic over these (a threshold computed from constants, np.any(x > c)) is decided by evaluating it at val
         self.numbers = {k: float(v) for k, v in (numbers or {}).items()}
@@ -389,6 +430,12 @@ class ValueCase:
         elementary functions): reading the name is reading that expression"""
         if self.module_tree is None:
             return None
+        memo = _MODULE_EXPR_MEMO.setdefault(id(self.module_tree), (self.module_tree, {}))[1]
+        if name not in memo:
+            memo[name] = self._module_expr_uncached(name)
+        return memo[name]
+
+    def _module_expr_uncached(self, name):
         vals = [s.value for s in ast.walk(self.module_tree) if isinstance(s, (ast.Assign, ast.AnnAssign, ast.AugAssign))
                 and getattr(s, 'value', None) is not None
                 and any(isinstance(t, ast.Name) and t.id == name for t in ast.walk(s.targets[0] if isinstance(s, ast.Assign) and len(s.targets) == 1 else getattr(s, 'target', ast.Pass())))]
@@ -452,7 +499,8 @@ class ValueCase:
                 bind.setdefault(p.arg, d)
         key = id(callee)
         if key not in self._sub:
-            self._sub[key] = ValueCase(callee, None, None, self.module_tree, self.opener, self._depth + 1, self.numbers)
+            self._sub[key] = ValueCase(callee, None, None, self.module_tree, self.opener, self._depth + 1, self.numbers,
+                                       components=self.components)
         sub = self._sub[key]
         at = sub.node_of(rets[0])
         if at is None:
@@ -521,6 +569,8 @@ class ValueCase:
                             def visit_Name(self, x):
                                 return _cp(item) if x.id == tgt and isinstance(x.ctx, ast.Load) else x
                         return S().visit(_cp(v.elt))
+                    if me.components and isinstance(v, ast.Call):
+                        return ast.copy_location(ast.Subscript(v, ast.Constant(d[2]), ast.Load()), n)
                     return n                      # one component of one value: a symbol
                 if ds:
                     # one binding that is not an assignment (loop / with target) is one value, kept as a symbol;
@@ -885,7 +935,7 @@ def rule_isa(ctx):
                 continue
             done[key] = True
             _cmp(ctx, 'C12-R1', fi, f'{what} ({region})', e, refs[region], consts, refconsts=rc, refdefs=refdefs,
-                 line=fi.node.lineno)
+                 line=fi.node.lineno, alts={k: v for k, v in refs.items() if k != region})
         ok = not refused_inside
         ctx.ob('C12-R1', fi, f'{what} defined over the whole documented range', ok, '0 - 25 km' if ok else
                f'{var} = {refused_inside[0]:g} (inside the documented range) is refused', nontrivial=False)
@@ -1053,67 +1103,187 @@ def rule_ffm2(ctx):
             _cmp(ctx, 'C12-R4', cat, nm, d, f'(A + B) / 2', {}, rename={f'ff_cal[ThrustMode.{a_}]': 'A', f'ff_cal[ThrustMode.{b_}]': 'B'})
 
 
+def plain_functions(m):
+    """name -> FunctionDef of the undecorated top-level functions of module m"""
+    return {f.name: f.node for f in m.functions.values() if '.' not in f.qualname and not f.node.decorator_list
+            and not isinstance(f.node, ast.AsyncFunctionDef)}
+
+
+def same_module_opener(m):
+    """opener for ValueCase: calls of plain (undecorated) top-level functions of module m are read as what they return"""
+    fns = {f.name: f for f in m.functions.values() if '.' not in f.qualname}
+
+    def opener(call):
+        if isinstance(call.func, ast.Name) and call.func.id in fns and not fns[call.func.id].node.decorator_list:
+            return fns[call.func.id].node
+        return None
+    return opener
+
+
+def record_fields(prog, m, vc, ret):
+    """({field: expression}, CFG node where they are evaluated) of `return Record(a, b, f=c)` (or of a local bound once
+    to such a call): positional arguments take the names of the record class's annotated fields"""
+    r, at = ret.value, vc.node_of(ret)
+    if isinstance(r, ast.Name) and at is not None:
+        b = vc.binding(r.id, at)
+        if b is not None and b[2] is None:
+            r, at = b[0], b[1]
+    if not isinstance(r, ast.Call) or any(isinstance(a_, ast.Starred) for a_ in r.args) or not all(k.arg for k in r.keywords):
+        return {}, at
+    ci = prog.resolve_name(m, call_name(r)) if isinstance(r.func, ast.Name) else None
+    names_ = list(ci.annotated_fields()) if ci is not None and hasattr(ci, 'annotated_fields') else []
+    fields_ = dict(zip(names_, r.args))
+    fields_.update({k.arg: k.value for k in r.keywords})
+    return fields_, at
+
+
+def product_factors(e):
+    """[(factor, +1 | -1)]: the expression as a product of factors and reciprocals of factors"""
+    if isinstance(e, ast.BinOp) and isinstance(e.op, ast.Mult):
+        return product_factors(e.left) + product_factors(e.right)
+    if isinstance(e, ast.BinOp) and isinstance(e.op, ast.Div):
+        return product_factors(e.left) + [(f, -s_) for f, s_ in product_factors(e.right)]
+    if isinstance(e, ast.UnaryOp) and isinstance(e.op, ast.USub):
+        return [(ast.Constant(-1), 1)] + product_factors(e.operand)
+    return [(e, 1)]
+
+
+def product_of(fs):
+    """the inverse of product_factors"""
+    num = [f for f, s_ in fs if s_ > 0]
+    den = [f for f, s_ in fs if s_ < 0]
+    e = ast.Constant(1.0)
+    for k, f in enumerate(num):
+        e = f if k == 0 else ast.BinOp(e, ast.Mult(), f)
+    for f in den:
+        e = ast.BinOp(e, ast.Div(), f)
+    return ast.fix_missing_locations(e)
+
+
+def loaded_names(e):
+    return {x.id for x in ast.walk(e) if isinstance(x, ast.Name) and isinstance(x.ctx, ast.Load)}
+
+
 def rule_bffm2(ctx):
+    """BFFM2 NOx, read off the value returned.  The NOx index in the result record is followed back through its
+    definitions (locals, tuple unpacking, the module's own helper functions opened by substitution, module-level and
+    imported constants folded) to one expression; that expression is a product; the factors that depend only on the
+    ambient temperature and pressure are the ambient correction (eqs. 44-45: theta, delta, P in psia, beta, Pv, omega, H),
+    the rest is the sea-level index of the log-log fit.  Each part is compared with the cited equations as an exact
+    canonical form; how many locals or helpers the code uses to get there does not matter."""
+    from ..conform import explain_difference
     prog = ctx.prog
     m = prog.module('emissions/ei/nox.py')
     fi = m.func('BFFM2_EINOx')
     vis = visible_constants(prog, m)
     B = REF.BFFM2
-    chain = [('theta_amb', B['theta_amb'], {}, ()), ('delta_amb', B['delta_amb'], {}, ()),
-             ('Pamb_psia', B['Pamb_psia'], {}, ()),
-             ('beta', B['beta'], {}, ()),
-             ('Pv', B['Pv'], {'beta': 'BETA'}, ('beta',)),
-             ('omega', B['omega'], {'Pv': 'PV', 'Pamb_psia': 'PAMB_PSIA'}, ('Pv', 'Pamb_psia')),
-             ('H', B['H'], {'omega': 'OMEGA'}, ('omega',)),
-             ('correction', B['correction'], {'H': 'HH', 'delta_amb': 'DELTA', 'theta_amb': 'THETA'}, ('H', 'delta_amb', 'theta_amb')),
-             ('NOxEI_sl', B['NOxEI_sl'], {}, ('x_eval', 'slope', 'intercept'))]
-    n = 0
-    for name, ref, ren, stop in chain:
-        d = single_def_value(fi.node, name)
-        if d is None:
-            ctx.undecided('C12-R1', fi, name, 'definition not found (or defined more than once)')
-        n += 1
-        _cmp(ctx, 'C12-R1', fi, f'BFFM2 {name}', d, ref, vis, rename=ren, stop=stop)
-    ctx.floor('C12-R1/bffm2', n, 9, 'BFFM2 sub-expressions')
-    # what follows is read by value: every name is followed to the definition that reaches its use (tuple and
-    # generator unpacking component-wise), so hoisting, inlining and reordering of independent statements do not matter
-    vc = ValueCase(fi.node)
+    vc = ValueCase(fi.node, module_tree=m.tree, opener=same_module_opener(m), components=True)
     rets = [r for r in walk_no_nested(fi.node) if isinstance(r, ast.Return) and r.value is not None]
-    at_end = vc.node_of(rets[-1]) if rets else None
-    if at_end is None:
-        ctx.undecided('C12-R1', fi, 'return', 'no return statement')
+    if len(rets) != 1 or vc.node_of(rets[0]) is None:
+        ctx.undecided('C12-R1', fi, 'return', f'{len(rets)} return statements')
+    fields, at_end = record_fields(prog, m, vc, rets[0])
+    need = ('NOxEI', 'NOEI', 'NO2EI', 'HONOEI', 'noProp', 'no2Prop', 'honoProp')
+    if not set(need) <= set(fields):
+        ctx.undecided('C12-R1', fi, 'result record', f'fields {sorted(set(need) - set(fields))} not found in the returned record')
 
-    def value_of(name, stop=()):
+    def value_of(e, stop=()):
         try:
-            return vc.resolve(ast.Name(name, ast.Load()), at_end, stop=stop, quiet=True)
+            vc.unresolved = set()
+            v = vc.resolve(e, at_end, stop=stop)
         except Undecidable as ex:
-            ctx.undecided('C12-R1', fi, name, str(ex))
-
-    def same_product(e, factors):
+            ctx.undecided('C12-R1', fi, norm(e)[:40], str(ex))
+        if vc.unresolved:
+            ctx.undecided('C12-R1', fi, norm(e)[:40], f'{sorted(vc.unresolved)} have several definitions reaching the return')
+        return v
+    amb = [p_ for p_ in fi.params if p_ in ('Tamb', 'Pamb')]
+    if len(amb) != 2 or not fi.params:
+        ctx.undecided('C12-R1', fi, 'parameters', 'ambient temperature and pressure parameters (Tamb, Pamb) not found')
+    p_eval = fi.params[0]
+    # the cited method is what the function computes when its optional knobs are left alone: a parameter with a numeric
+    # default that is not a symbol of the cited equations enters with its default value
+    knobs = {k: v for k, v in param_defaults(fi.node, vis).items() if k not in amb and k not in fi.params[:3]}
+    vis = dict(vis)
+    for k, v in knobs.items():
+        vis.setdefault(k, v)
+    E = value_of(fields['NOxEI'])
+    corr, sea = [], []
+    for f, s_ in product_factors(E):
+        reads = (loaded_names(f) & set(fi.params)) - set(knobs)
+        (corr if reads <= set(amb) else sea).append((f, s_))
+    ok = bool(corr) and bool(sea) and any(loaded_names(f) & set(amb) for f, _ in corr)
+    ctx.ob('C12-R1', fi, 'NOxEI = sea-level EI × ambient correction', ok,
+           'the returned NOx index is a product of a fuel-flow part and an ambient (Tamb, Pamb) part' if ok else
+           'the ambient correction is not applied to the sea-level EI', line=rets[0].lineno)
+    # ambient correction: the whole chain of eqs. (44)-(45) at once; a difference is pinned to the innermost cited
+    # sub-expression it lies in
+    order = ('theta_amb', 'delta_amb', 'Pamb_psia', 'beta', 'Pv', 'omega', 'H', 'correction')
+    sym = {'theta_amb': 'THETA', 'delta_amb': 'DELTA', 'Pamb_psia': 'PAMB_PSIA', 'beta': 'BETA', 'Pv': 'PV', 'omega': 'OMEGA', 'H': 'HH'}
+    refdefs = {sym[k]: B[k] for k in sym}
+    n = 0
+    if ok:
         try:
-            return poly_equal(normal_form(e, {}, vis), ref_normal_form(' * '.join(factors), {}))
-        except AlgebraError:
-            return False
-    d = value_of('NOxEI', stop=('NOxEI_sl', 'correction'))
-    ok = same_product(d, ['NOxEI_sl', 'correction'])
-    ctx.ob('C12-R1', fi, 'NOxEI = sea-level EI × ambient correction', ok, norm(d)[:60] if ok else 'the ambient correction is not applied to the sea-level EI')
+            named = {k: ref_normal_form(B[k], {}, refdefs) for k in order}
+            code = normal_form(product_of(corr), {}, vis)
+        except AlgebraError as ex:
+            ctx.undecided('C12-R1', fi, 'BFFM2 ambient correction', f'cannot normalise: {ex}')
+        d = explain_difference(code, named['correction'], named)
+        if d is not None and not d[2]:
+            ctx.undecided('C12-R1', fi, f'BFFM2 {d[0] or "correction"}', d[1])
+        culprit = None if d is None else (d[0] or 'correction')
+        for k in order:
+            n += 1
+            bad = culprit == k
+            ctx.ob('C12-R1', fi, f'BFFM2 {k} ≡ {B[k][:70]}', not bad,
+                   'as it enters the returned index: equal to the cited equation as an exact canonical form' if not bad else
+                   f'differs from the cited equation `{B[k][:90]}`' + (' (with omega = 0.62198·0.6·Pv / (P_psia − 0.6·Pv) and P_psia = '
+                   '14.696·Pamb/101325 substituted: one rational expression of Pamb and Pv)' if k == 'H' else '') + f': {d[1]}',
+                   line=rets[0].lineno)
+    # sea-level index: 10 ** (log10(fuel flow) * slope + intercept), slope and intercept the two results of the fit
+    pf = []
+    evals = []
+
+    class _Fit(ast.NodeTransformer):
+        def visit_Subscript(self, x):
+            # component i of the value np.polyfit(...) returns: slope (0) and intercept (1) of the degree-1 fit
+            if isinstance(x.value, ast.Call) and call_name(x.value).split('.')[-1] == 'polyfit' and isinstance(x.slice, ast.Constant) \
+                    and x.slice.value in (0, 1, -1, -2):
+                if norm(x.value) not in [norm(c) for c in pf]:
+                    pf.append(x.value)
+                return ast.copy_location(ast.Name(('slope', 'intercept')[x.slice.value % 2], ast.Load()), x)
+            return self.generic_visit(x)
+
+        def visit_Call(self, x):
+            if call_name(x).split('.')[-1] == 'log10' and len(x.args) == 1 and p_eval in loaded_names(x.args[0]):
+                evals.append(x.args[0])
+                return ast.copy_location(ast.Name('x_eval', ast.Load()), x)
+            return self.generic_visit(x)
+    if ok:
+        n += 1
+        S = _Fit().visit(_cp(product_of(sea)))
+        try:
+            code = normal_form(S, {}, vis)
+            want = ref_normal_form(B['NOxEI_sl'], {})
+        except AlgebraError as ex:
+            ctx.undecided('C12-R1', fi, 'BFFM2 NOxEI_sl', f'cannot normalise: {ex}')
+        d = explain_difference(code, want)
+        if d is not None and not d[2]:
+            ctx.undecided('C12-R1', fi, 'BFFM2 NOxEI_sl', d[1])
+        ctx.ob('C12-R1', fi, f'BFFM2 NOxEI_sl ≡ {B["NOxEI_sl"]}', d is None,
+               'equal to the cited equation as an exact canonical form' if d is None else
+               f'differs from the cited equation `{B["NOxEI_sl"]}`: {d[1]}', line=rets[0].lineno)
+    ctx.floor('C12-R1/bffm2', n, 9, 'BFFM2 sub-expressions')
     # the fit: np.polyfit(log10 <calibration fuel flows>, log10 <certification indices>, 1), evaluated at log10 <fuel flow>
-    pf = [c for c in calls_in(fi.node) if call_name(c).split('.')[-1] == 'polyfit']
     ok = len(pf) == 1
     detail = 'np.polyfit(log10 ff, log10 EI, 1)'
     if ok:
         a_ = dict(zip(('x', 'y', 'deg'), pf[0].args))
         a_.update({k.arg: k.value for k in pf[0].keywords})
-        at = vc.node_of(pf[0])
-        try:
-            xs, ys = (vc.resolve(a_[k], at, quiet=True) if k in a_ and at is not None else None for k in ('x', 'y'))
-            xe = value_of('x_eval')
-        except Undecidable as ex:
-            ctx.undecided('C12-R1', fi, 'log-log fit', str(ex))
+        xs, ys = a_.get('x'), a_.get('y')          # already resolved: the call is part of the resolved result
 
         def log10_of(e):
             return e.args[0] if isinstance(e, ast.Call) and call_name(e).split('.')[-1] == 'log10' and len(e.args) == 1 else None
-        lx, ly, le = (log10_of(e) if e is not None else None for e in (xs, ys, xe))
+        lx, ly = (log10_of(e) if e is not None else None for e in (xs, ys))
+        le = evals[0] if evals else None
         ids = lambda e: {t for x in ast.walk(e) for t in (re.split(r'[^a-z]+', (x.id if isinstance(x, ast.Name) else x.attr if isinstance(x, ast.Attribute) else '').lower())) if t}
         ok = lx is not None and ly is not None and le is not None and set(a_) == {'x', 'y', 'deg'} and const_value(a_['deg']) == 1
         if ok:
@@ -1123,12 +1293,47 @@ def rule_bffm2(ctx):
             detail = f'np.polyfit(log10 {norm(lx)[:30]}, log10 {norm(ly)[:30]}, 1) at log10 {norm(le)[:30]}'
     ctx.ob('C12-R1', fi, 'log10–log10 linear fit of EI against fuel flow', ok, detail if ok else
            'the log-log fit changed (axes, base or degree)')
-    # linear in the certification EI? (log-log fit: not polynomial) — speciation products are linear in NOxEI
-    for out, prop in (('NOEI', 'noProp'), ('NO2EI', 'no2Prop'), ('HONOEI', 'honoProp')):
-        d = value_of(out, stop=('NOxEI', prop))
-        ok = same_product(d, ['NOxEI', prop])
-        ctx.ob('C12-R3', fi, f'{out} = NOxEI × {prop}', ok, 'speciation scales linearly with the NOx index' if ok else
-               f'{out} is not the NOx index times its own fraction')
+    # the fit is made from, and evaluated at, the fuel flows passed in: every positive flow reaches its logarithm
+    # unchanged; only a non-positive flow is replaced (by something positive, so that the logarithm is defined).  Decided
+    # element-wise: the function's own statements are run for one element of each array argument (ScalarRun, points).
+    lits = sorted({abs(Fraction(repr(x.value))) for x in ast.walk(fi.node) if isinstance(x, ast.Constant)
+                   and isinstance(x.value, (int, float)) and not isinstance(x.value, bool) and 0 < abs(x.value) < 10 ** 6})
+    small = (min(lits) if lits else Fraction(1)) / 7
+    samples = [small, Fraction(5, 3)] + [q for l_ in lits for q in (l_ * Fraction(9, 10), l_, l_ * Fraction(11, 10))] + [Fraction(0), Fraction(-2)]
+    bad = None
+    seen_logs = 0
+    try:
+        for k, f_ in enumerate(samples):
+            pts = {p_eval: f_, fi.params[2]: f_ * 3 if len(fi.params) > 2 else None, fi.params[1]: abs(f_) * 11 + 1}
+            run = ScalarRun(fi.node, {}, vis, points={k_: v for k_, v in pts.items() if v is not None}, helpers=plain_functions(m))
+            run.run()
+            seen_logs = max(seen_logs, len(run.log_args))
+            inputs = set(pts.values())
+            for node, v in run.log_args:
+                okv = (v in inputs) if f_ > 0 else v > 0
+                if not okv and bad is None:
+                    bad = (f_, v, node)
+    except Undecidable as ex:
+        ctx.undecided('C12-R1', fi, 'fuel flows entering the fit', str(ex))
+    ctx.floor('C12-R1/bffm2-flows', seen_logs, 3, 'logarithms of the fuel flows / indices followed element-wise')
+    ctx.ob('C12-R1', fi, 'the fit uses the fuel flows passed in (only non-positive flows are replaced)', bad is None,
+           f'checked element-wise for {len(samples)} flows on both sides of every literal of the function' if bad is None else
+           (f'a fuel flow of {float(bad[0]):g} kg/s (or a calibration flow / index proportional to it) enters `{norm(bad[2])[:40]}` as {float(bad[1]):g}: '
+            + ('the log-log fit is not made from / evaluated at the flow passed in, so the returned index is not the cited fit at that flow'
+               if bad[0] > 0 else 'the logarithm of a non-positive flow is taken')), line=(bad[2].lineno if bad else fi.node.lineno))
+    # speciation: each species' field is the NOx field times its own fraction field, by value
+    try:
+        nox = normal_form(E, {}, vis)
+        for out, prop in (('NOEI', 'noProp'), ('NO2EI', 'no2Prop'), ('HONOEI', 'honoProp')):
+            # the fraction as the record carries it is one value (a symbol): the locals it is written with are not opened
+            keep = tuple(set().union(*(loaded_names(fields[q]) for q in ('noProp', 'no2Prop', 'honoProp'))) & vc.locals)
+            got = normal_form(value_of(fields[out], stop=keep), {}, vis)
+            frac = normal_form(fields[prop], {}, vis)
+            ok = poly_equal(got, nox * frac)
+            ctx.ob('C12-R3', fi, f'{out} = NOxEI × {prop}', ok, 'speciation scales linearly with the NOx index' if ok else
+                   f'{out} is not the NOx index times its own fraction')
+    except AlgebraError as ex:
+        ctx.undecided('C12-R3', fi, 'speciation', f'cannot normalise: {ex}')
 
 
 # ---------------------------------------------------------------------------------------------------------------------
@@ -1215,11 +1420,24 @@ class ScalarRun:
 
     NUM_FUNCS = ('float', 'float64', 'float32', 'asarray', 'array', 'squeeze', 'item', 'double')
 
-    def __init__(self, fn, tables, consts, tracked=(), env=None, enums=None, wrappers=(), module_tree=None):
+    def __init__(self, fn, tables, consts, tracked=(), env=None, enums=None, wrappers=(), module_tree=None, points=None,
+                 helpers=None, pointwise=False, _depth=0):
         self.fn, self.tables, self.consts, self.tracked = fn, tables, consts, tuple(tracked)
+        # helpers: name -> FunctionDef of plain functions of the same module; a call of one is run the same way (arguments
+        # bound to its parameters, per-mode tables passed by name follow) and its returned value is the call's value
+        self.helpers = dict(helpers or {})
+        self.pointwise = bool(points) or pointwise
+        self._depth = _depth
+        # points: parameter name -> number.  The element-wise view of an array argument: the run follows *one element*
+        # of it.  `P.as_array()`, np.asarray(P), copies and dtype conversions are that element; `X[mask] = v` with the
+        # mask evaluated at the element replaces it or leaves it; every number whose log10 is taken is recorded in
+        # `log_args` (the run itself cannot represent the logarithm of an arbitrary rational).
+        self.points = dict(points or {})
+        self.log_args = []
         self.module_tree = module_tree
         self._mod = {}
         self.env = dict(env or {})
+        self.env.update(self.points)
         self.enums = enums or {}
         self.wrappers = set(wrappers)
         self.returned = OPQ
@@ -1405,6 +1623,9 @@ class ScalarRun:
         f = call_name(e).split('.')[-1]
         if isinstance(e.func, ast.Attribute) and f in ('item', 'squeeze', 'copy') and not e.args:
             return self.ev(e.func.value)
+        if self.pointwise and isinstance(e.func, ast.Attribute) and f in ('as_array', 'astype', 'to_numpy', 'ravel', 'flatten') \
+                and isinstance(self.ev(e.func.value), Fraction):
+            return self.ev(e.func.value)
         if isinstance(e.func, ast.Attribute) and f == 'as_array' and not e.args and isinstance(e.func.value, ast.Name) \
                 and e.func.value.id in self.tables and e.func.value.id not in self.env:
             return tuple(self.tables[e.func.value.id][m] for m in THRUST_MODES)   # enumeration order: C12-R6
@@ -1412,6 +1633,8 @@ class ScalarRun:
         kw = {k.arg: self.ev(k.value) for k in e.keywords if k.arg}
         if any(isinstance(a, ast.Starred) for a in e.args) or any(k.arg is None for k in e.keywords):
             return OPQ
+        if isinstance(e.func, ast.Name) and e.func.id in self.helpers and e.func.id not in self.env and self._depth < 3:
+            return self.call_helper(self.helpers[e.func.id], e, args, kw)
         num = lambda v: isinstance(v, Fraction)
         table = lambda v: isinstance(v, tuple) and len(v) >= 2 and all(num(x) for x in v)
         if isinstance(e.func, ast.Name):
@@ -1445,6 +1668,9 @@ class ScalarRun:
             return Fraction(0 if f == 'zeros_like' else 1)
         if f == 'log10' and len(args) == 1 and isinstance(args[0], Pos):
             return args[0].log
+        if f in ('log10', 'log', 'log2') and len(args) == 1 and isinstance(args[0], Fraction) and self.pointwise:
+            self.log_args.append((e, args[0]))
+            return OPQ
         if f == 'log10' and len(args) == 1 and isinstance(args[0], tuple) and all(isinstance(a, Pos) for a in args[0]):
             return tuple(a.log for a in args[0])
         if f in ('mean', 'average') and len(args) == 1 and isinstance(args[0], tuple) and args[0] and all(num(a) for a in args[0]):
@@ -1461,8 +1687,14 @@ class ScalarRun:
             return abs(args[0])
         if f in ('min', 'max', 'minimum', 'maximum', 'fmin', 'fmax') and len(args) >= 2 and all(num(a) for a in args):
             return (min if 'min' in f else max)(args)
-        if f == 'clip' and len(args) == 3 and all(num(a) for a in args):
-            return min(max(args[0], args[1]), args[2])
+        if f == 'clip' and len(args) + len(kw) == 3 and not (set(kw) - {'a_min', 'a_max', 'min', 'max'}):
+            a = dict(zip(('a', 'lo', 'hi'), args))
+            a.update({'lo' if k in ('a_min', 'min') else 'hi': v for k, v in kw.items()})
+            if num(a.get('a')) and all(a.get(k) is None or num(a.get(k)) for k in ('lo', 'hi')):
+                v = a['a']
+                v = v if a.get('lo') is None else max(v, a['lo'])
+                return v if a.get('hi') is None else min(v, a['hi'])
+            return OPQ
         if f == 'sign' and len(args) == 1 and num(args[0]):
             return Fraction((args[0] > 0) - (args[0] < 0))
         if f == 'bool' and len(args) == 1:
@@ -1522,6 +1754,35 @@ class ScalarRun:
             return _isclose(args[0], args[1], rtol, atol, np_style)
         return OPQ
 
+    def call_helper(self, callee, e, args, kw):
+        a = callee.args
+        if a.vararg or a.kwarg or isinstance(callee, ast.AsyncFunctionDef):
+            return OPQ
+        names = [p_.arg for p_ in a.posonlyargs + a.args]
+        if len(args) > len(names) or any(k not in names + [p_.arg for p_ in a.kwonlyargs] for k in kw):
+            return OPQ
+        env = dict(zip(names, args))
+        srcs = dict(zip(names, e.args))
+        srcs.update({k.arg: k.value for k in e.keywords})
+        env.update(kw)
+        pos = a.posonlyargs + a.args
+        for p_, d in list(zip(pos[len(pos) - len(a.defaults):], a.defaults)) + [(p_, d) for p_, d in zip(a.kwonlyargs, a.kw_defaults) if d is not None]:
+            if p_.arg not in env:
+                saved, self.env = self.env, {}
+                try:
+                    env[p_.arg] = self.ev(d)
+                finally:
+                    self.env = saved
+        # a per-mode table handed over by name is the same table under the callee's parameter name
+        tables = {p_: self.tables[x.id] for p_, x in srcs.items() if isinstance(x, ast.Name) and x.id in self.tables and x.id not in self.env}
+        for p_ in tables:
+            env.pop(p_, None)
+        sub = ScalarRun(callee, tables, self.consts, env=env, enums=self.enums, wrappers=self.wrappers, module_tree=self.module_tree,
+                        helpers=self.helpers, pointwise=self.pointwise, _depth=self._depth + 1)
+        sub.log_args = self.log_args
+        sub.run()
+        return sub.returned
+
     # -- statements ---------------------------------------------------------
     def bind(self, target, v, st):
         if isinstance(target, ast.Name):
@@ -1536,7 +1797,15 @@ class ScalarRun:
             else:
                 for t in target.elts:
                     self.bind(t.value if isinstance(t, ast.Starred) else t, OPQ, st)
-        # a store into a subscript / attribute changes an object, not a scalar of ours
+        elif isinstance(target, ast.Subscript) and self.pointwise and isinstance(target.value, ast.Name) \
+                and isinstance(self.env.get(target.value.id), Fraction):
+            # element-wise view: `X[mask] = v` replaces the element where the mask holds for it
+            mk = self.truth(self.ev(target.slice))
+            if mk is OPQ:
+                self.env[target.value.id] = OPQ
+            elif mk:
+                self.env[target.value.id] = v if isinstance(v, Fraction) else OPQ
+        # any other store into a subscript / attribute changes an object, not a scalar of ours
 
     def cloud(self, stmts, st):
         """everything stored under a test (or loop) this input does not decide becomes unknown"""
@@ -1714,7 +1983,7 @@ def hcco_breaks(fn, consts):
     return {b for b in out if b < 10 ** 6}
 
 
-def hcco_evaluate(fn, consts, tables=('x_EI', 'ff_cal')):
+def hcco_evaluate(fn, consts, tables=('x_EI', 'ff_cal'), helpers=None):
     """Run the prelude of `fn` over the grid; returns (cases, regions hit by the documented rules, mismatches under the
     tolerance reading of "slope == 0", mismatches under the exact reading)."""
     breaks = hcco_breaks(fn, consts)
@@ -1729,7 +1998,7 @@ def hcco_evaluate(fn, consts, tables=('x_EI', 'ff_cal')):
             want, rule = hcco_documented_fit(c['ei'], c['ff'], zero)
             rules.add(rule)
             run = ScalarRun(fn, {tables[0]: {k: Pos(v) for k, v in c['ei'].items()},
-                                 tables[1]: {k: Pos(v) for k, v in c['ff'].items()}}, consts, HCCO_TRACKED)
+                                 tables[1]: {k: Pos(v) for k, v in c['ff'].items()}}, consts, HCCO_TRACKED, helpers=helpers)
             snap = run.run()
             if snap is None:
                 raise Undecidable('the function returns before any evaluation point is classified' if run.exited else
@@ -1778,29 +2047,134 @@ def rule_hcco(ctx):
     if len(arr) != 1:
         ctx.undecided('C12-R1', fi, 'HC/CO ambient factor', f'the returned value is built from {sorted(arr) or "no"} element-wise filled array(s)')
     A = arr.pop()
-    total = rets[0].value
+    # Everything that happens to the returned array after it is filled, read by value (locals through their reaching
+    # definitions, the module's own helpers opened, constants folded):
+    #   whole-array scalings  `A *= f`, `A = A * f`, `return A * f`           -> the ambient factor
+    #   masked corrections    `A[M] = g(A[M])`, `A[M] *= f`, `A *= np.where(M, f, 1)`, `A = np.where(M, g(A), A)`
+    #                                                                          -> the ACRP low-thrust rule
+    vc = ValueCase(fi.node, module_tree=m.tree, opener=same_module_opener(m))
+    p_ff = fi.params[0] if fi.params else None
+    IDLE_FLOW = 'ff_cal[ThrustMode.IDLE]'
+
+    def val(e, st):
+        at = vc.node_of(st)
+        if at is None:
+            return None
+        try:
+            return vc.resolve(e, at, stop=(A,), quiet=True)
+        except Undecidable as ex:
+            ctx.undecided('C12-R1', fi, norm(e)[:40], str(ex))
+
+    def where3(e):
+        return e.args if isinstance(e, ast.Call) and call_name(e).split('.')[-1] == 'where' and len(e.args) == 3 and not e.keywords else None
+
+    def is_one(e):
+        return isinstance(e, ast.Constant) and not isinstance(e.value, bool) and e.value == 1
+
+    class _At(ast.NodeTransformer):
+        """values at the masked points: A[M] -> XEI, ff[M] -> FF (M the mask of the correction, or the whole array)"""
+        def __init__(self, mask):
+            self.mask = norm(mask) if mask is not None else None
+
+        def visit_Subscript(self, n):
+            if self.mask is not None and norm(n.slice) == self.mask and isinstance(n.value, ast.Name) and n.value.id in (A, p_ff):
+                return ast.copy_location(ast.Name('XEI' if n.value.id == A else 'FF', ast.Load()), n)
+            return self.generic_visit(n)
+
+        def visit_Name(self, n):
+            if self.mask is None and n.id in (A, p_ff):
+                return ast.copy_location(ast.Name('XEI' if n.id == A else 'FF', ast.Load()), n)
+            return n
+    def nan_to_zero(t, st):
+        """`A[np.isnan(A)] = 0`: commutes with every scaling (0·f = 0, NaN·f = NaN), before or after it"""
+        return isinstance(t.slice, ast.Call) and call_name(t.slice).split('.')[-1] == 'isnan' and len(t.slice.args) == 1 \
+            and norm(t.slice.args[0]) == A and isinstance(st.value, ast.Constant) and st.value.value == 0 and not isinstance(st.value.value, bool)
+    total = val(rets[0].value, rets[0])
     partial = None
+    corrections = []          # (mask, new value over XEI / FF, statement)
+    fills = []                # (statement, resolved value) of element-wise assignments that do not read the array
     for t, st, how in stores_to(fi.node):
-        if how == 'aug' and isinstance(t, ast.Name) and t.id == A:
+        if vc.node_of(st) is None:
+            continue
+        if isinstance(t, ast.Name) and t.id == A and how == 'aug':
             if not isinstance(st.op, (ast.Mult, ast.Div)):
                 ctx.undecided('C12-R1', fi, 'HC/CO ambient factor', f'`{norm(st)[:60]}` changes the whole array other than by scaling')
+            f = val(st.value, st)
+            w = where3(f)
+            if w is not None and isinstance(st.op, ast.Mult) and is_one(w[2]) and A not in loaded_names(f):
+                corrections.append((w[0], ast.BinOp(ast.Name('XEI', ast.Load()), ast.Mult(), _At(None).visit(_cp(w[1]))), st))
+                continue
+            if any(where3(x) is not None for x in ast.walk(f)) or A in loaded_names(f):
+                ctx.undecided('C12-R1', fi, 'HC/CO ambient factor', f'`{norm(st)[:60]}`: a scaling that is itself a selection between points')
             later = [s2 for t2, s2, h2 in stores_to(fi.node) if isinstance(t2, ast.Subscript) and norm(t2.value) == A and h2 == 'assign'
-                     and s2.lineno > st.lineno and A not in {x.id for x in ast.walk(s2.value) if isinstance(x, ast.Name)}]
+                     and s2.lineno > st.lineno and A not in loaded_names(s2.value) and not nan_to_zero(t2, s2)]
             if guards_of(st) or later:
                 partial = st
-            total = ast.copy_location(ast.BinOp(left=total, op=st.op, right=st.value), st)
+            total = ast.copy_location(ast.BinOp(left=total, op=st.op, right=f), st)
+        elif isinstance(t, ast.Name) and t.id == A and how in ('assign', 'ann') and A in loaded_names(st.value):
+            f = val(st.value, st)
+            w = where3(f)
+            if w is not None and isinstance(w[2], ast.Name) and w[2].id == A:
+                corrections.append((w[0], _At(None).visit(_cp(w[1])), st))
+            else:
+                ctx.undecided('C12-R1', fi, 'HC/CO ambient factor', f'`{norm(st)[:60]}` rebinds the returned array from itself')
+        elif isinstance(t, ast.Subscript) and isinstance(t.value, ast.Name) and t.value.id == A:
+            mask = val(t.slice, st)
+            v = val(st.value, st)
+            if how == 'aug':
+                corrections.append((mask, ast.BinOp(ast.Name('XEI', ast.Load()), st.op, _At(mask).visit(_cp(v))), st))
+            elif A in loaded_names(v) and not (isinstance(mask, ast.Call) and A in loaded_names(mask) and isinstance(v, ast.Constant)):
+                corrections.append((mask, _At(mask).visit(_cp(v)), st))
+            elif not nan_to_zero(t, st):
+                if A in loaded_names(mask):
+                    ctx.undecided('C12-R1', fi, 'HC/CO element-wise assignments', f'`{norm(st)[:60]}` selects points by the values already in the array')
+                fills.append((st, v, mask))
     ok = partial is None
     ctx.ob('C12-R1', fi, 'ambient factor multiplies every point', ok, 'whole-array scaling, after the last element-wise assignment' if ok else
            'the ambient factor is not applied to the whole array', line=(partial or rets[0]).lineno)
     _cmp(ctx, 'C12-R1', fi, 'HC/CO ambient factor', total, 'XEI * (' + H['factor'] + ')', vis, rename={A: 'XEI'}, line=rets[0].lineno)
-    ac = single_def_value(fi.node, 'xEI_acrp')
-    if ac is None:
-        ctx.undecided('C12-R1', fi, 'xEI_acrp', 'ACRP correction not found')
-    _cmp(ctx, 'C12-R1', fi, 'ACRP low-thrust correction', ac, H['acrp'], vis,
-         rename={'xEI_out[low_thrust_mask]': 'XEI', 'ff_eval[low_thrust_mask]': 'FF', 'ff_cal[ThrustMode.IDLE]': 'FF_IDLE'})
-    lm = single_def_value(fi.node, 'low_thrust_mask')
-    ok = lm is not None and norm(lm) == 'ff_eval < ff_cal[ThrustMode.IDLE]'
-    ctx.ob('C12-R1', fi, 'low-thrust rule applies below idle fuel flow', ok, norm(lm) if ok else 'low-thrust mask changed')
+    # the ACRP low-thrust rule: the one correction of the values already in the array, below idle fuel flow
+    if not corrections:
+        reads_idle = False
+        for st, v, mask in fills:
+            for e in (v, mask):
+                logs = {id(y) for x in ast.walk(e) if isinstance(x, ast.Call) and call_name(x).split('.')[-1] in ('log10', 'log')
+                        for y in ast.walk(x)}
+                reads_idle = reads_idle or any(isinstance(x, ast.Subscript) and norm(x) == IDLE_FLOW and id(x) not in logs for x in ast.walk(e))
+        if reads_idle:
+            ctx.undecided('C12-R1', fi, 'ACRP low-thrust correction', 'no correction of the filled array found, but the idle fuel flow enters the values written')
+        ctx.ob('C12-R1', fi, 'ACRP low-thrust correction', False,
+               'nothing written to the returned array reads the idle calibration fuel flow itself: the documented low-thrust rule '
+               'xEI·(1 − 52·(ff − ff_idle)) below idle fuel flow is not applied', line=rets[0].lineno)
+    elif len(corrections) > 1:
+        ctx.undecided('C12-R1', fi, 'ACRP low-thrust correction', f'{len(corrections)} corrections of values already in the returned array '
+                      f'(lines {[c[2].lineno for c in corrections]})')
+    else:
+        mask, newv, st = corrections[0]
+        if A in loaded_names(newv) or p_ff in loaded_names(newv):
+            ctx.undecided('C12-R1', fi, 'ACRP low-thrust correction', f'`{norm(st)[:60]}` reads the array or the fuel flows at other points than those it corrects')
+        _cmp(ctx, 'C12-R1', fi, 'ACRP low-thrust correction', newv, H['acrp'], vis, rename={IDLE_FLOW: 'FF_IDLE'}, stop=('XEI', 'FF'), line=st.lineno)
+        # below idle: ff < ff_idle; at ff == ff_idle the factor is exactly 1, so `<=` selects the same values
+        cm = mask
+        if isinstance(cm, ast.Call) and call_name(cm).split('.')[-1] in ('less', 'less_equal', 'greater', 'greater_equal') and len(cm.args) == 2:
+            op = {'less': ast.Lt, 'less_equal': ast.LtE, 'greater': ast.Gt, 'greater_equal': ast.GtE}[call_name(cm).split('.')[-1]]
+            cm = ast.Compare(cm.args[0], [op()], [cm.args[1]])
+        okm, whym = None, ''
+        if isinstance(cm, ast.Compare) and len(cm.ops) == 1:
+            l, op, r = cm.left, type(cm.ops[0]), cm.comparators[0]
+            if op in (ast.Gt, ast.GtE):
+                l, op, r = r, {ast.Gt: ast.Lt, ast.GtE: ast.LtE}[op], l
+            if op in (ast.Lt, ast.LtE) and norm(l) == p_ff and norm(r) == IDLE_FLOW:
+                okm = True
+            elif norm(l) == p_ff or norm(r) == p_ff or IDLE_FLOW in (norm(l), norm(r)):
+                okm, whym = False, f'the correction is applied where `{norm(cm)[:60]}`, not below the idle fuel flow'
+        if okm is None:
+            ctx.undecided('C12-R1', fi, 'ACRP low-thrust correction', f'mask `{norm(mask)[:60]}` is not a comparison of the fuel flow with the idle flow')
+        ctx.ob('C12-R1', fi, 'low-thrust rule applies below idle fuel flow', okm, norm(cm) if okm else whym, line=st.lineno)
+        later = [s2 for s2, v2, m2 in fills if s2.lineno > st.lineno]
+        ctx.ob('C12-R1', fi, 'low-thrust rule applied to the fitted values', not later, 'after the last element-wise assignment' if not later else
+               f'values are written into the array (line {later[0].lineno}) after the low-thrust correction: it is lost at those points',
+               line=st.lineno, nontrivial=False)
     ren = {f'x_EI[ThrustMode.{k}]': f'EI_{k}' for k in ('IDLE', 'APPROACH', 'CLIMB', 'TAKEOFF')}
     ren.update({f'ff_cal[ThrustMode.{k}]': f'FF_{k}' for k in ('IDLE', 'APPROACH', 'CLIMB', 'TAKEOFF')})
     hz = [s for t, s, how in stores_to(fi.node) if isinstance(t, ast.Name) and t.id == 'x_horzline']
@@ -1832,7 +2206,7 @@ def rule_hcco(ctx):
         ctx.control('C12-R5', hit if expect_bad else not cbad, f'embedded HC/CO prelude ({label}) is '
                     + ('refused in the region of rule (a) with a positive slope' if expect_bad else 'accepted in every region'))
     try:
-        ncases, res = hcco_evaluate(fi.node, vis)
+        ncases, res = hcco_evaluate(fi.node, vis, helpers={k: v for k, v in plain_functions(m).items() if v is not fi.node})
     except Undecidable as ex:
         ctx.undecided('C12-R5', fi, 'HC/CO clamping rules', str(ex))
     bad, regions = res[False]
@@ -1898,11 +2272,29 @@ def rule_sox(ctx):
         ok = consts.get(k) == Fraction(repr(v))
         ctx.ob('C12-R1', (m.relpath, '<module>'), f'{k} = {float(consts.get(k, 0))}', ok, 'molecular weight' if ok else f'{k} ≠ {v}', nontrivial=False)
     ren = {'fuel.fuel_sulfur_content_nom': 'FSC', 'fuel.sulfate_yield_nom': 'EPS'}
-    d2, d4 = single_def_value(fi.node, 'EI_SO2'), single_def_value(fi.node, 'EI_SO4')
-    if d2 is None or d4 is None:
-        ctx.undecided('C12-R1', fi, 'EI_SO2/EI_SO4', 'definitions not found')
-    _cmp(ctx, 'C12-R1', fi, 'EI_SO2', d2, REF.SOX['EI_SO2'], consts, rename=ren)
-    _cmp(ctx, 'C12-R1', fi, 'EI_SO4', d4, REF.SOX['EI_SO4'], consts, rename=ren)
+    # read off the record returned: each field followed back to one expression over the fuel's sulfur content and
+    # sulfate yield (locals, the module's own helpers, constants), whatever the intermediate names
+    vc = ValueCase(fi.node, module_tree=m.tree, opener=same_module_opener(m))
+    rets = [n for n in walk_no_nested(fi.node) if isinstance(n, ast.Return) and n.value is not None]
+    # the return that builds the record is the computed result (a return that hands out a stored record is T-MEMO's business)
+    built = [(r, record_fields(prog, m, vc, r)) for r in rets if vc.node_of(r) is not None]
+    built = [(r, fa) for r, fa in built if set(fa[0]) >= {'EI_SOx', 'EI_SO2', 'EI_SO4'}]
+    if len(built) != 1:
+        ctx.undecided('C12-R1', fi, 'EI_SO2/EI_SO4', f'{len(built)} return statements build a record with the fields EI_SOx, EI_SO2, EI_SO4')
+    rets = [built[0][0]]
+    fields_, at = built[0][1]
+    try:
+        vals = {}
+        for k in ('EI_SOx', 'EI_SO2', 'EI_SO4'):
+            vc.unresolved = set()
+            vals[k] = vc.resolve(fields_[k], at)
+            if vc.unresolved:
+                ctx.undecided('C12-R1', fi, k, f'{sorted(vc.unresolved)} have several definitions reaching the return')
+    except Undecidable as ex:
+        ctx.undecided('C12-R1', fi, 'EI_SO2/EI_SO4', str(ex))
+    d2, d4 = vals['EI_SO2'], vals['EI_SO4']
+    _cmp(ctx, 'C12-R1', fi, 'EI_SO2', d2, REF.SOX['EI_SO2'], consts, rename=ren, line=rets[0].lineno)
+    _cmp(ctx, 'C12-R1', fi, 'EI_SO4', d4, REF.SOX['EI_SO4'], consts, rename=ren, line=rets[0].lineno)
     try:
         a = nf_code(fi.node, d2, consts, rename=ren)
         b = nf_code(fi.node, d4, consts, rename=ren)
@@ -1914,24 +2306,11 @@ def rule_sox(ctx):
         ctx.undecided('C12-R3', fi, 'sulfur balance', str(e))
     ctx.ob('C12-R3', fi, 'EI_SO2/MW_SO2 + EI_SO4/MW_SO4 ≡ S·10³/MW_S', ok,
            'sulfur atoms conserved identically in the sulfate yield' if ok else 'sulfur atoms are not conserved')
-    # the result record, field by field and by value: positional or keyword arguments of the record's constructor are
-    # put under the field names of the class; each must be the value computed for it
-    r = [n for n in walk_no_nested(fi.node) if isinstance(n, ast.Return)][0].value
-    if isinstance(r, ast.Name):
-        r = single_def_value(fi.node, r.id) or r
-    fields_ = {}
-    if isinstance(r, ast.Call) and not any(isinstance(a_, ast.Starred) for a_ in r.args) and all(k.arg for k in r.keywords):
-        ci = prog.resolve_name(m, call_name(r)) if isinstance(r.func, ast.Name) else None
-        names_ = list(ci.annotated_fields()) if ci is not None and hasattr(ci, 'annotated_fields') else []
-        fields_ = dict(zip(names_, r.args))
-        fields_.update({k.arg: k.value for k in r.keywords})
-    ok = set(fields_) >= {'EI_SOx', 'EI_SO2', 'EI_SO4'}
-    if ok:
-        try:
-            got = {k: nf_code(fi.node, fields_[k], consts, rename=ren) for k in ('EI_SOx', 'EI_SO2', 'EI_SO4')}
-            ok = poly_equal(got['EI_SOx'], a + b) and poly_equal(got['EI_SO2'], a) and poly_equal(got['EI_SO4'], b)
-        except AlgebraError as e:
-            ctx.undecided('C12-R3', fi, 'result fields', str(e))
+    try:
+        got = {k: nf_code(fi.node, vals[k], consts, rename=ren) for k in ('EI_SOx', 'EI_SO2', 'EI_SO4')}
+        ok = poly_equal(got['EI_SOx'], a + b) and poly_equal(got['EI_SO2'], a) and poly_equal(got['EI_SO4'], b)
+    except AlgebraError as e:
+        ctx.undecided('C12-R3', fi, 'result fields', str(e))
     ctx.ob('C12-R3', fi, f'result {({k: norm(v)[:30] for k, v in fields_.items()})}', ok, 'SOx = SO2 + SO4, fields carry their own values' if ok else
            'SOx is not SO2 + SO4 or the result fields are crossed')
     lin = all(dict(mm).get('FSC', 0) == 1 for mm in a.num) and all(dict(mm).get('FSC', 0) == 1 for mm in b.num)
